@@ -426,6 +426,7 @@ func ruleG8(p *Prog, r *Report) {
 	}
 	parserPlus := 0
 	inLoop := false
+	valueDependent := ""
 	for _, f := range p.RList {
 		for _, b := range f.Blocks {
 			for _, in := range b.Instrs {
@@ -435,6 +436,13 @@ func ruleG8(p *Prog, r *Report) {
 				}
 				if s, ok := constString(c.Call.Args[1]); ok && s == "+" {
 					parserPlus++
+					// the '+' must be looked for whatever the license token's text is: the grammar allows
+					// id '+' for every listed id, including those that end in -or-later
+					for _, l := range pathLiterals(p, f, b) {
+						if ls := l.String(); strings.Contains(ls, ".value") {
+							valueDependent = fmt.Sprintf("%s: the '+' after a license is only looked for when %s", p.pos(c.Pos()), shortDesc(ls))
+						}
+					}
 					for _, h := range f.Blocks {
 						if isLoopHeader(h) && naturalLoop(h)[b] {
 							inLoop = true
@@ -447,7 +455,9 @@ func ruleG8(p *Prog, r *Report) {
 			}
 		}
 	}
-	if parserPlus == 1 && !inLoop {
+	if valueDependent != "" {
+		r.Bad("G8p", "parseLicense|'+'", p.pos(pl.Pos()), valueDependent+": for the other ids a following '+' is left in the stream and the expression is rejected although id '+' is in the grammar")
+	} else if parserPlus == 1 && !inLoop {
 		r.OK("G8p", "parseLicense|'+'", p.pos(pl.Pos()), "one optional '+' per license token", "", true)
 	} else {
 		r.Bad("G8p", "parseLicense|'+'", p.pos(pl.Pos()), fmt.Sprintf("the parser can take more than one '+' after a license (%d call sites of parseOperator(\"+\"), in a loop or outside parseLicense: %v)", parserPlus, inLoop))
